@@ -1033,7 +1033,9 @@ func (w *World) createArchetype(node *archNode, target Entity, forStorage bool) 
 // Returns all archetypes that match the given filter.
 func (w *World) getArchetypes(filter Filter) []*archetype {
 	if cached, ok := filter.(*CachedFilter); ok {
-		return w.filterCache.get(cached).Archetypes.pointers
+		// Return a copy: batch operations iterate the result while tables are
+		// created and retired, which modifies the cache's own list.
+		return append([]*archetype{}, w.filterCache.get(cached).Archetypes.pointers...)
 	}
 
 	arches := []*archetype{}
